@@ -64,7 +64,7 @@ var propCfgs = map[string]propCfg{
 	"C06": {Profile: "crud", Level: "exploration", Quick: 6000, Thorough: 400000},
 	"C15": {Profile: "crud", Level: "exploration", Quick: 5000, Thorough: 300000},
 	"C16": {Profile: "crud", Level: "exploration", Quick: 6000, Thorough: 400000},
-	"C07": {Profile: "tx", Level: "fault_enumeration", Quick: 3000, Thorough: 200000},
+	"C07": {Profile: "tx", Level: "fault_enumeration", Quick: 3000, Thorough: 100000},
 	"C08": {Profile: "tx", Level: "exploration", Quick: 4000, Thorough: 300000},
 	"C09": {Profile: "integrity", Level: "exploration", Quick: 5000, Thorough: 300000},
 	"C17": {Profile: "snap", Level: "exploration", Quick: 3000, Thorough: 150000},
@@ -661,7 +661,12 @@ func cmdCheck(args []string) int {
 	results := make([]wres, workers)
 	done := make(chan int, workers)
 	per := (runs + workers - 1) / workers
-	timeout := 20*time.Minute + time.Duration(per)*60*time.Millisecond
+	// watchdog per worker process: generous (a hang is harness trouble, exit 2); a C07 unit is ~26 runs
+	perUnit := 100 * time.Millisecond
+	if prop == "C07" {
+		perUnit = 1500 * time.Millisecond
+	}
+	timeout := 30*time.Minute + time.Duration(per)*perUnit
 	for w := 0; w < workers; w++ {
 		from, to := w*per, (w+1)*per
 		if to > runs {
